@@ -1,6 +1,6 @@
 (* C04 - Profile conversion modes do what is documented and preserve dynamic metadata. *)
 From Coq Require Import List NArith ZArith Bool String.
-From DV Require Import Outcome Bits BitIO Fields Blocks Rpu Ops C04Proofs.
+From DV Require Import Outcome Bits BitIO Fields Blocks Rpu Ops C04Proofs C04Idem.
 From DVgen Require Import Modes_gen.
 Import ListNotations.
 Open Scope N_scope.
@@ -47,6 +47,25 @@ Theorem C04_target_profile : forall x m y, convert_with_mode x m = Ok y ->
   ((m = 2 \/ m = 4) -> vdr_rpu_profile (hdr x) = 1 \/ dovi_profile x = 5 -> dovi_profile y = 8 /\ el_type y = None).
 Proof. exact convert_target_profile. Qed.
 
+(* CONVERTING TWICE WITH THE SAME MODE EQUALS CONVERTING ONCE, for every RPU whose cached profile
+   and EL type are those of its header and mapping (every parsed RPU: C04_parsed_consistent) and
+   every mode: whenever the second conversion succeeds it changes nothing ... *)
+Theorem C04_idempotent : forall x m y y',
+  consistent x -> convert_with_mode x m = Ok y -> convert_with_mode y m = Ok y' -> y' = y.
+Proof. exact convert_idempotent. Qed.
+
+(* ... and it does succeed (mode 1: when the VDR bit depth is the 12 bits of profile 7; a MEL
+   header with another depth is not a profile the tool knows, and the second call is an error) *)
+Theorem C04_convert_twice : forall x m y,
+  consistent x -> convert_with_mode x m = Ok y ->
+  (m = 1 -> vdr_bit_depth_minus8 (hdr x) = 4) ->
+  convert_with_mode y m = Ok y.
+Proof. exact convert_twice. Qed.
+
+Theorem C04_parsed_consistent : forall p sw data x, parse_rpu p sw data = Ok x -> consistent x.
+Proof. exact parse_rpu_consistent. Qed.
+
 Print Assumptions C04_surfaces.
+Print Assumptions C04_convert_twice.
 Print Assumptions C04_dm_preserved.
 Print Assumptions C04_target_profile.
